@@ -11,7 +11,7 @@ Lemma step_assoc sess me r alt nd a res :
   match res with
   | Ok (nd', a', t') => (AInv sess (set_thr a' r t') /\ delta me r a nd nd' (set_thr a' r t')) /\ node_frame nd nd'
   | Blocked => True
-  | Panic site => cclosed (n_pcd nd) = true /\ site = "send on closed channel"%string
+  | Panic site => cclosed (n_pcd nd) = true /\ site = "send on closed channel"%string /\ at_pc a r FDo 5 = true
   end.
 Proof.
   intros Hr. destruct r; try discriminate Hr.
